@@ -116,12 +116,12 @@ def run(ctx: Ctx) -> None:
                     ctx.violation(f"{mn}.{n}(_add_ws={bad!r}) is not rejected with TypeError", [mn, n, repr(bad)],
                                   {"impl_output": repr(r)})
             for _ in range(ctx.budget(6, 60)):
-                st = rng.getstate()
+                st = trees.rng_save(rng)
                 a1, k1 = rand_args(rng)
-                rng.setstate(st)
+                trees.rng_restore(rng, st)
                 a2, k2 = rand_args(rng)
                 explicit = rng.choice([None, True, False])
-                ctx.count((mn, n, "args", repr(st[1][:3])), True, mn)
+                ctx.count((mn, n, "args", repr(st[0][1][:3])), True, mn)
                 if explicit is None:
                     got = safe_call(lambda: f(*a1, **k1))
                     want = safe_call(lambda: Tag(n, *a2, _add_ws=want_ws, **k2))
